@@ -87,6 +87,24 @@ theorem normal_form_without_surgery (ci : OpInfo) (all : List Nat) (b : Nat) (T 
     (h : ∀ p ∈ pl, OpSimple ci all b T p) : normOps ci all b pl k T = .ok (pl.map (normROp ci all b), T, []) :=
   normOps_simple ci all b T pl k h
 
+/-- … and one subgraph of the normal form then has this closed form: its own normalised tensors behind the earlier ones; one
+Placeholder / Const producer per tensor without producer, then the renumbered written operators that still produce a tensor;
+renumbered original inputs; de-duplicated renumbered outputs with their positions; no virtual outputs -/
+theorem normal_form_subgraph_without_surgery (ts : List TensorD) (ci : OpInfo) (prev own : List TensorD) (ps : PSub) (outs2 pos : List Nat)
+    (ho1 : (sgAll ts ps).mapM (normTensorAt ts) = .ok own)
+    (ho : outputList ps.sg.originalOutputPositions (sgOuts ps) = .ok outs2)
+    (hpos : Reader.positionsOf (Reader.dedupNat (renList (sgAll ts ps) prev.length outs2)) (renList (sgAll ts ps) prev.length outs2) = .ok pos)
+    (hinp : inputsNotProduced ps = true)
+    (hs : ∀ p ∈ writtenOps ps, OpSimple ci (sgAll ts ps) prev.length (prev ++ own) p) :
+    normSub ts ci prev ps = .ok (
+      SubgraphD.mk ps.sg.name true
+        (Reader.startupOps (prev ++ own) prev.length (sgAll ts ps).length ((writtenOps ps).map (normROp ci (sgAll ts ps) prev.length))
+            (Reader.dedupNat (renList (sgAll ts ps) prev.length ps.sg.originalInputs)) ++
+          Reader.realOps ((writtenOps ps).map (normROp ci (sgAll ts ps) prev.length)) [])
+        (renList (sgAll ts ps) prev.length ps.sg.originalInputs) []
+        (Reader.dedupNat (renList (sgAll ts ps) prev.length outs2)) (some pos) [], prev ++ own) :=
+  normSub_simple ts ci prev own ps outs2 pos ho1 ho hpos hinp hs
+
 /-! ## non-vacuity: a description in the domain -/
 
 /-- a CPU subgraph with the Ethos-U operator, an elementwise operator with a constant operand, a third-party custom operator, an
